@@ -349,7 +349,7 @@ type c09Plan struct {
 // before any worker starts).
 func c09Generate(t *sim.Tape) *c09Plan {
 	p := &c09Plan{FlowDefs: map[string][]byte{}, FlowName: map[string]string{}}
-	p.Sc = gen.NewScenario(t, gen.Profile{MaxFlows: 4, MaxNodes: 6, RichLocalization: true, NumberFormat: true, FewKnobs: true})
+	p.Sc = gen.NewScenario(t, gen.Profile{MaxFlows: 4, MaxNodes: 6, RichLocalization: true, NumberFormat: true, FewKnobs: true, ListHeavy: true})
 	for _, f := range p.Sc.Flows {
 		p.FlowIDs = append(p.FlowIDs, f.UUID)
 		p.FlowDefs[f.UUID] = f.Bytes()
@@ -406,6 +406,9 @@ func c09Generate(t *sim.Tape) *c09Plan {
 			op.Lang = []string{"spa", "fra", "eng", "kin"}[t.Pick("oplang", 4)]
 			if i == 0 {
 				op.Kind = "start"
+			}
+			if t.Chance("hot_flow", 1, 2) {
+				op.Flow = 0 // sessions that share assets mostly share flows too: the same actions of the same definition
 			}
 			ops = append(ops, op)
 		}
